@@ -302,6 +302,14 @@ func (ri *RedisInput) syncMeta(ctx context.Context, redisCli *redis.StandaloneRe
 		ri.logger.Errorf("channel SetRunId error : offset(%v), err(%v)", sOffset, err)
 		return
 	}
+	if isFullSync {
+		// the stored position belongs to the history that is being replaced
+		err = ri.output.ResetStartPoint(ctx, inputIds)
+		if err != nil {
+			ri.logger.Errorf("output ResetStartPoint error : offset(%v), err(%v)", sOffset, err)
+			return
+		}
+	}
 	err = ri.output.SetRunId(ctx, sOffset.RunId)
 	if err != nil {
 		ri.logger.Errorf("output SetRunId error : offset(%v), err(%v)", sOffset, err)
